@@ -28,7 +28,8 @@
    core/coreutils that do not depend on the modelled checks (e.g. a decoder allocating
    a renter-chosen slice length) are outside the model as well. *)
 From HostdBase Require Import Base.
-From HostdMDM Require Import Model Rpc Proofs ProofsExec ProofsInstr ProofsProg ProofsRpc Legacy.
+From HostdMDM Require Import Model Rpc Proofs ProofsExec ProofsInstr ProofsProg ProofsRpc Legacy GenPrelude GenEquiv ProofsGen.
+From HostdMDM.gen Require Import MDMGen.
 Local Open Scope N_scope.
 
 (** * programData accessors *)
@@ -190,3 +191,32 @@ Example c14_nonvacuous :
   run_program ex_h ex_good = ({| hbal := 999852; hrev := 4; hroots := [11]; htemps := [] |}, Done [64; 0]) /\
   run_program ex_h ex_bad = ({| hbal := 999862; hrev := 3; hroots := [11; 22]; htemps := [] |}, Rejected EInvalid).
 Proof. exact ex_nonvacuous. Qed.
+
+(** The accessor theorems about the REGENERATED definitions: gen/MDMGen.v is written by
+   tools/go2coq from the programData methods of the current rhp/v3/execute.go at the start of
+   every check run (programData_Uint64, _Hash, _Signature, _Sector, _Bytes, _UnlockKey);
+   GenEquiv.v proves each equal to the hand-written pd_ function (after projecting the returned
+   byte view / key to what the model observes) for all uint64 operands, [gen_run_acc] is
+   [run_acc] over the generated accessors.  [off < two64], [len < two64]: uint64 in Go. *)
+
+Theorem c14_gen_accessors_no_panic : forall a d off len,
+  pd_ok d -> off < two64 -> len < two64 -> gen_run_acc (a, d, off, len) <> Panic.
+Proof. exact gen_run_acc_no_panic. Qed.
+Print Assumptions c14_gen_accessors_no_panic.
+
+Theorem c14_gen_accessors_accept_iff_in_range : forall a d off len,
+  pd_ok d -> off < two64 -> len < two64 ->
+  (exists v, gen_run_acc (a, d, off, len) = Ok v) <->
+  (off + acc_need a len <= plen d /\ (a = AUnlockKey -> 16 <= len)).
+Proof. exact gen_run_acc_ok_iff. Qed.
+Print Assumptions c14_gen_accessors_accept_iff_in_range.
+
+Theorem c14_gen_accessors_equal_model : forall a d off len,
+  fits d -> off < two64 -> len < two64 -> gen_run_acc (a, d, off, len) = run_acc (a, d, off, len).
+Proof. exact gen_run_acc_eq. Qed.
+Print Assumptions c14_gen_accessors_equal_model.
+
+Theorem c14_gen_uint64_reads_little_endian : forall d off, pd_ok d -> off < two64 ->
+  programData_Uint64 d off = if in_bounds (plen d) off 8 then Ok (le_num (pget d) off 8) else Err EInvalid.
+Proof. exact gen_uint64_spec. Qed.
+Print Assumptions c14_gen_uint64_reads_little_endian.
